@@ -156,17 +156,23 @@ def compute_pipeline_semantic_id(canonical_spec: Dict[str, Any]) -> str:
     node implementation details. It's derived from the pipeline definition itself.
     """
 
-    # Use the structure of nodes (names, inputs, outputs) but not runtime details
-    pipeline_structure = {
-        "nodes": [
-            {
-                "name": node.get("name"),
-                "node_uuid": node.get("node_uuid"),
-                "payload_from": node.get("payload_from"),
-            }
-            for node in canonical_spec.get("nodes", [])
-        ]
-    }
+    # Use the structure of nodes (names, inputs, outputs) but not runtime details.
+    # A node derived by a preprocessor (derive.parameter_sweep) additionally
+    # contributes the fingerprint of its sanitized preprocessor metadata: the
+    # node_uuid alone does not see the sweep definition. Nodes without a
+    # preprocessor contribute exactly what they always did.
+    structure_nodes = []
+    for node in canonical_spec.get("nodes", []):
+        entry = {
+            "name": node.get("name"),
+            "node_uuid": node.get("node_uuid"),
+            "payload_from": node.get("payload_from"),
+        }
+        pre_meta = node.get("preprocessor_metadata")
+        if isinstance(pre_meta, dict):
+            entry["node_semantic_id"] = compute_node_semantic_id(pre_meta)
+        structure_nodes.append(entry)
+    pipeline_structure = {"nodes": structure_nodes}
     payload = json.dumps(pipeline_structure, sort_keys=True, separators=(",", ":"))
     return (
         "plsemid-"
